@@ -170,9 +170,15 @@ def blockAt (bs100k crc : Nat) (c : Cur) : Except Err (List UInt8 × Cur) :=
   let r := Retrieve.retrieve (Retrieve.St.start c.v c.w) c.ws true
   match r.status with
   | .ok =>
-    let e := emitOf r
-    let s := Gen.reorderStatus r.st.run.n bs100k (emitCode e.final) e.crc.toNat crc
-    if s = Gen.RV_OK then .ok (e.bytes, ⟨r.st.v, r.st.w, r.rest⟩) else .error (failBlock s)
+    -- do_reorder applies the size test to EVERY out_blk of the block, also to those with
+    -- status MORE; in the model (one buffer) that is the test below, made before the bytes
+    -- are computed (a block over the declared size fails whatever emit() would say)
+    let s0 := Gen.reorderStatus r.st.run.n bs100k Gen.RV_MORE 0 crc
+    if s0 ≠ Gen.RV_MORE then .error (failBlock s0)
+    else
+      let e := emitOf r
+      let s := Gen.reorderStatus r.st.run.n bs100k (emitCode e.final) e.crc.toNat crc
+      if s = Gen.RV_OK then .ok (e.bytes, ⟨r.st.v, r.st.w, r.rest⟩) else .error (failBlock s)
   | .err code =>
     -- `eb->status = rv`; do_emit does not call emit(); do_reorder: size test, then failf
     .error (failBlock (Gen.reorderStatus r.st.run.n bs100k code 0 crc))
